@@ -1,0 +1,52 @@
+//go:build verif
+
+// Contracts for package http, round 4: hijack tracking, the io.ReaderFrom path, logging/close of the middleware
+// closure (C18, C20), checked by /verif/govc (comment-only file; no code). Trusted specs: /verif/specs/http2.spec.
+package http
+
+// ---------------------------------------------------------------- Hijack (C18)
+// The underlying Hijacker is called exactly once per call, THROUGH the tracker; the interceptor is marked hijacked
+// exactly when that call succeeded (so the response processor stays silent afterwards), an error is handed back as it is
+// and leaves the mark alone; nothing is sent to the client through the ResponseWriter API.
+//@ func (*hijackerTracker).Hijack props C18,C07
+//@   requires built: h != nil && !isnil(h.hijacker) && h.interceptor != nil
+//@   modifies h.interceptor.isHijacked, hijackCalls, lastHijackErr
+//@   ensures once: hijackCalls == old(hijackCalls) + 1
+//@   ensures errReturned: result2 == lastHijackErr
+//@   ensures marked: isnil(lastHijackErr) ==> h.interceptor.isHijacked
+//@   ensures failedKeepsMark: !isnil(lastHijackErr) ==> h.interceptor.isHijacked == old(h.interceptor.isHijacked)
+//@   ensures nothingSent: downBytes == old(downBytes) && headerWrites == old(headerWrites) && flushCalls == old(flushCalls)
+
+// ---------------------------------------------------------------- ReadFrom, wrap (C18): NOT PROVED in this round
+// ReadFrom copies into struct{ io.Writer }{i}, a writer whose only method is the interceptor's Write.
+// UNPROVED: func (*rwInterceptor).ReadFrom: requires wired(i) && isDownstream(i.w)
+// UNPROVED:   ensures alreadyInterrupted: old(intr(i)) ==> downBytes == old(downBytes) && headerWrites == old(headerWrites)
+// UNPROVED:   ensures noFlush: flushCalls == old(flushCalls)
+// UNPROVED:   ensures wiringKept: i.w == old(i.w) && i.tx == old(i.tx) && i.isHijacked == old(i.isHijacked)
+// UNPROVED:   (io.Copy's contract only describes a destination with isDownstream(dst); the anonymous destination type cannot
+// UNPROVED:   be named -- tag("struct{io.Writer}") is rejected -- and with an explicit write set the modifies/ obligations for
+// UNPROVED:   the Read methods of every io.Reader implementation (corazawaf.bodyBufferReader.pos, ...) stay undecided)
+// UNPROVED: func wrap: requires !isnil(w) && r != nil && !isnil(tx)
+// UNPROVED:   ensures initialState: forall x *rwInterceptor :: fresh(x) ==> x.w == w && x.tx == tx && x.statusCode == 200 && !x.wroteHeader &&
+// UNPROVED:       !x.isWriteHeaderFlush && !x.wroteBufferedBodyToDownstream && !x.isHijacked && !x.allowFlushing
+// UNPROVED:   ensures trackerTied: forall t *hijackerTracker :: fresh(t) ==> !isnil(t.hijacker) && t.interceptor != nil && fresh(t.interceptor)
+// UNPROVED:   (both reported `failed` with an empty counterexample on all four returns; not diagnosed for lack of time. The
+// UNPROVED:   selection of the returned anonymous struct -- every optional interface forwarded through i -- has no term in the
+// UNPROVED:   contract language: the result is a struct VALUE boxed in an interface, payload() only handles pointers.)
+
+// ---------------------------------------------------------------- the middleware closure: logging and Close (C18, C20)
+// The deferred function: phase 5 / audit logging first, then Close, each exactly once, whatever Close returns.
+//@ func WrapHandler$3$1 props C18,C20,C07
+//@   modifies inferred, logCalls, closeCalls, txVer
+//@   ensures loggedOnce: logCalls == old(logCalls) + 1
+//@   ensures closedOnce: closeCalls == old(closeCalls) + 1
+//@   at call "tx.Close()" requires loggingFirst: logCalls == old(logCalls) + 1 && closeCalls == old(closeCalls)
+
+//@ func WrapHandler$3 extend props C18,C20
+//@   ensures loggedOnce: logCalls == old(logCalls) + 1
+//@   ensures closedOnce: closeCalls == old(closeCalls) + 1
+// the handler runs only for a request that was neither interrupted nor failed, before logging; the response processor
+// runs after the handler and before logging; when the interruption's status is sent the handler has not run
+//@   at call "h.ServeHTTP(ww, r)" requires notBlocked: !reqInterrupted && !reqFailed && logCalls == old(logCalls) && closeCalls == old(closeCalls)
+//@   at call "processResponse(tx, r)" requires afterHandler: handlerCalls == old(handlerCalls) + 1 && logCalls == old(logCalls) && closeCalls == old(closeCalls)
+//@   at call "w.WriteHeader(" requires handlerSkipped: handlerCalls == old(handlerCalls) && logCalls == old(logCalls)
